@@ -236,7 +236,7 @@ def decode_nbytes(size, buffer):
             raise BufferEmptyError()
         return data
     if size == 0:
-        raise BufferEmptyError()
+        return b""
     return read_exact(stream, size)
 
 
